@@ -16,11 +16,15 @@ LEVEL_TEXT = ("Bounded twin contract on the real Pipeline: a cached pipeline (ev
               "supplied intermediates, with/without full_output), update_defaults / update_bound / replace mutations and "
               "map runs; every call that succeeds uncached must return an equal value cached, and an immediately "
               "repeated root-only call must not re-execute a cached function. The caching path goes through "
-              "to_hashable / networkx / cloudpickle; no obligation is counted as proved ('exploration').")
+              "to_hashable / networkx / cloudpickle and is decided on the bounded rung. Proved part (pyvc): "
+              "compute_cache_key (the key is the output name plus the to_hashable image of exactly the root-argument "
+              "items, in sorted order; to_hashable is an assumed contract, checked under C15). Category 'other' = that "
+              "leaf contract + bounded twin checking; it is not a proof of C09.")
 LEVEL_NOTE = ("Bounds: DAGs of 1..4 functions, histories of length <=4 (quick) / <=6, values from 2 variants per "
               "argument, caches simple/lru/hybrid/disk (non-shared in-process). Trusted: reference twin = the same "
               "pipeline without caching.")
-TECHNIQUE = "bounded twin (relational) contract checking over call/mutation histories (no deductive part)"
+TECHNIQUE = ("bounded twin (relational) contract checking over call/mutation histories; leaf compute_cache_key "
+             "discharged by z3")
 EXPLANATION = LEVEL_TEXT
 RULE = ("random DAG x cache type x cached subset x random history; distinct = distinct (DAG, cache, subset, history); "
         "non-trivial = the history repeats an output with different arguments or contains a mutation")
